@@ -258,10 +258,12 @@ def _constructor(ctx, reqs, pending):
             continue
         if form != 'ambiguous' and present[0] != _expected_attr(v, form):
             ctx.fail(case, f'value stored in {present[0]}, the standard assigns {_expected_attr(v, form)}', site='ctor-attr')
-        if getattr(c, present[0]) != v or c.value != v:
-            ctx.fail(case, f'value read back as {c.value!r} / attribute {getattr(c, present[0])!r}', site='ctor-value')
-        if c.meaning != meaning or c.scheme_designator != '99HDV' or c.scheme_version != ver:
-            ctx.fail(case, 'meaning / scheme / version not read back', site='ctor-fields')
+        stv, got = _try(lambda: (getattr(c, present[0]), c.value))
+        if stv != 'ok' or got != (v, v):
+            ctx.fail(case, f'value read back as {got!r}', site='ctor-value')
+        stf, gotf = _try(lambda: (c.meaning, c.scheme_designator, c.scheme_version))
+        if stf != 'ok' or gotf != (meaning, '99HDV', ver):
+            ctx.fail(case, f'meaning / scheme / version not read back: {gotf!r}', site='ctor-fields')
         # through a written file (explicit and implicit VR): value unchanged, equal to the original, same hash
         if v and v == v.strip() and meaning and idx % (1 if ctx.tier == 'thorough' else 3) == 0 and all(ord(ch) < 128 for ch in v):
             for implicit in (False, True):
@@ -278,9 +280,11 @@ def _constructor(ctx, reqs, pending):
                 ctx.case(path='file-roundtrip')
                 if st3 != 'ok':
                     ctx.fail(dict(case, what='ctor-file'), f'from_dataset refused the written code: {c2}', site='file')
-                elif c2.value != v or not (c2 == c) or not (c == c2) or hash(c2) != hash(c) or \
-                        [k for k in CODE_KWS if hasattr(c2, k)] != present:
-                    ctx.fail(dict(case, what='ctor-file'), f'code changed through the file: value {c2.value!r}', site='file')
+                else:
+                    st4, same = _try(lambda: c2.value == v and (c2 == c) and (c == c2) and hash(c2) == hash(c) and
+                                     [k for k in CODE_KWS if hasattr(c2, k)] == present)
+                    if st4 != 'ok' or not same:
+                        ctx.fail(dict(case, what='ctor-file'), f'code changed through the file ({same!r})', site='file')
 
 
 # ------------------------------------------------------------------ 3. from_dataset / from_code
@@ -376,10 +380,10 @@ def _from_dataset(ctx, reqs, pending, only=None):
             ctx.fail(case, 'content of the result differs from the dataset', site='fd-content')
         if copy and (type(inp) is not cls_before or sorted(_ds_pairs(inp)) != before):
             ctx.fail(case, 'copy=True altered the original (class or content)', site='fd-copy')
-        kw = [k for k in CODE_KWS if k in res][0]
-        if res.value != getattr(res, kw) or res.meaning != 'Brain' or res.scheme_designator != 'SCT' or \
-                res.scheme_version != ('2020' if has_v else None):
-            ctx.fail(case, 'properties of the converted concept do not read the dataset', site='fd-props')
+        kws_present = [k for k in CODE_KWS if k in res]
+        stp, props = _try(lambda: (res.value, res.meaning, res.scheme_designator, res.scheme_version))
+        if stp != 'ok' or len(kws_present) != 1 or props != (getattr(res, kws_present[0]), 'Brain', 'SCT', '2020' if has_v else None):
+            ctx.fail(case, f'properties of the converted concept do not read the dataset: {props!r}', site='fd-props')
         res.CodeMeaning = 'changed afterwards'
         after = sorted(_ds_pairs(inp))
         if copy and after != before:
@@ -406,46 +410,66 @@ def _from_code(ctx, objs, retired, reqs, pending):
             continue
         if isinstance(o, CodedConcept) and c is not o:
             ctx.fail(case, 'from_code(CodedConcept) returned another object', site='from_code')
-        if not (c == o) or not (o == c) or hash(c) != hash(o) or len({c, o}) != 1:
-            ctx.fail(case, 'from_code(x) is not equal to x / hashes differently', site='from_code')
-        if (c.value, c.scheme_designator, c.meaning, c.scheme_version) != (d['value'], d['scheme'], d['meaning'], d['version']):
-            ctx.fail(case, 'from_code changed a field', site='from_code')
+        st2, good = _try(lambda: (c == o) and (o == c) and hash(c) == hash(o) and len({c, o}) == 1)
+        if st2 != 'ok' or not good:
+            ctx.fail(case, f'from_code(x) is not equal to x / hashes differently ({good})', site='from_code')
+        st3, fields = _try(lambda: (c.value, c.scheme_designator, c.meaning, c.scheme_version))
+        if st3 != 'ok' or fields != (d['value'], d['scheme'], d['meaning'], d['version']):
+            ctx.fail(case, f'from_code changed a field: {fields}', site='from_code')
         reqs.append(('fromCode', {'o': _enc(o)}))
         pending.append((case, ('ok', {'concept': sorted(_ds_pairs(c))})))
 
 
 # ------------------------------------------------------------------ run
 def _compare(ctx, pending, answers):
+    seen = {}
+    real_disagree = ctx.disagree
+
+    def capped(layer, case, impl, model, what=''):
+        # keep the evidence readable: at most 4 disagreements per kind, the rest is counted
+        seen[what] = seen.get(what, 0) + 1
+        if seen[what] <= 4:
+            real_disagree(layer, case, impl, model, what)
+    ctx_disagree = capped
+    try:
+        _compare_inner(ctx, pending, answers, ctx_disagree)
+    finally:
+        for k, v in seen.items():
+            if v > 4:
+                ctx.note(f'{v} disagreements of kind {k!r} (4 recorded)')
+
+
+def _compare_inner(ctx, pending, answers, disagree):
     for (case, impl), ans in zip(pending, answers):
         if 'proto_err' in ans:
-            ctx.disagree('L0', case, impl, ans, 'model protocol error')
+            disagree('L0', case, impl, ans, 'model protocol error')
             continue
         what = case.get('what')
         if impl[0] == 'hash':
             # the model says which string is hashed; Python's hash of that string must be the object's hash
             if 'ok' not in ans or impl[1] is None or hash(ans['ok']) != impl[1]:
-                ctx.disagree('L0', case, impl, ans, 'hash input')
+                disagree('L0', case, impl, ans, 'hash input')
             continue
         model = ('ok', ans['ok']) if 'ok' in ans else ('err', ans['err'])
         if impl[0] != model[0]:
-            ctx.disagree('L0', case, impl, model, 'ok-vs-error')
+            disagree('L0', case, impl, model, 'ok-vs-error')
             continue
         if impl[0] == 'err':
             continue
         if what == 'ctor':
             if sorted(map(list, model[1])) != impl[1]:
-                ctx.disagree('L0', case, impl, model, 'constructed dataset')
+                disagree('L0', case, impl, model, 'constructed dataset')
         elif what == 'from_dataset':
             m = model[1]
             got = {'same': m['same'], 'orig_cls': m['orig']['cls'], 'res_ds': sorted(map(list, m['res']['ds'])),
                    'orig_after': sorted(map(list, m['orig_after_write']['ds']))}
             if got != impl[1] or m['res']['cls'] != 'concept':
-                ctx.disagree('L0', case, impl, got, 'from_dataset store')
+                disagree('L0', case, impl, got, 'from_dataset store')
         elif what == 'from_code':
             if 'concept' not in model[1] or sorted(map(list, model[1]['concept'])) != impl[1]['concept']:
-                ctx.disagree('L0', case, impl, model, 'from_code')
+                disagree('L0', case, impl, model, 'from_code')
         elif impl[1] != model[1]:
-            ctx.disagree('L0', case, impl, model, 'value')
+            disagree('L0', case, impl, model, 'value')
 
 
 def run(ctx):
